@@ -28,7 +28,9 @@ REQUIRED = ['kfold_partition', 'schedule_out_of_fold', 'coef_convex', 'coef_nan_
 RULE = ('SuperLearner: cells loss {L2, nloglik} x discrete {no, yes} x 1..5 candidates, two fold counts from 2..10 per '
         'cell, n random in 10..200 (n not divisible by folds in most cases), synthetic memorising spies and spies '
         'wrapping real learners (EmpiricalMeanSL, GLMSL, StepwiseSL, sklearn); plus rejected (folds > n, folds < 2), '
-        'all-zero outcome and refit streams; every SuperLearner case is repeated with X / y (fit and predict) as lists '
+        'all-zero outcome, refit and shared-candidate streams (two SuperLearner objects built from the same candidate '
+        'objects); 40% of the synthetic candidates are warm-start learners (a fit continues from what the object has '
+        'already seen, like sklearn warm_start=True); every SuperLearner case is repeated with X / y (fit and predict) as lists '
         'and as pandas objects with default, shifted and permuted integer labels (int and float outcome dtype) and '
         'compared exactly with the ndarray run, the hold-out discipline being judged on the outcome values the '
         'clones received; the stand-alone estimators get the same container variants.  StepwiseSL: cells direction x family {Gaussian, Binomial, Poisson} x '
@@ -39,7 +41,9 @@ ASSUMPTIONS = ['sklearn KFold(k, shuffle=False) yields contiguous folds, the fir
                'scipy.optimize.nnls returns a vector (any vector: the theorems assume nothing about it; its entries '
                'are measured to be >= 0)',
                'sklearn.base.clone returns a fresh unfitted object per call (observed through the spies)',
-               'statsmodels GLM reports the same AIC for the same design on refit (measured); NaN / +inf AIC = not '
+               'statsmodels GLM reports the same AIC for the same design on refit (measured only when the reference fit is at a '
+               'genuine optimum: converged, no warning, no fitted mean on the boundary, full rank; otherwise a discard -- '
+               'gate D is driven by the AIC table logged on the implementation); NaN / +inf AIC = not '
                'comparable; a non-finite AIC of the starting model is outside the model (discarded)',
                'numpy logit / inverse_logit are monotone and mutually inverse on [bounds, 1-bounds] (hypotheses of '
                'predict_in_hull_nll; the Float run of the model is execution only)']
@@ -58,18 +62,23 @@ class Cand(BaseEstimator):
     """spy candidate; column 0 of X = row id.  flavor: 0 mean, 1 OLS on x1, 2 OLS on all x, 3 noise about the mean,
     4 mirrored OLS (anti-correlated: gets coefficient 0).  Rows seen in fit are answered with their outcome."""
 
-    def __init__(self, cand=0, flavor=0, binary=False, inner=None):
+    def __init__(self, cand=0, flavor=0, binary=False, inner=None, warm=False):
         self.cand = cand
         self.flavor = flavor
         self.binary = binary
         self.inner = inner
+        self.warm = warm            # warm start: fit() continues from what the object has already seen
         self.token_ = next(_UID)       # identity of the Python object (id() is reused after garbage collection)
 
     def fit(self, X, y):
         X, y = np.asarray(X, dtype=float), np.asarray(y, dtype=float)
         self.uid_ = next(_UID)
-        self.train_ = [int(v) for v in X[:, 0]]
-        self.ymap_ = dict(zip(self.train_, y.tolist()))
+        ids = [int(v) for v in X[:, 0]]
+        # like sklearn's warm_start=True: a second fit on the same object keeps what earlier fits learned;
+        # a pristine clone starts empty.  `train_` is everything this object has seen.
+        self.train_ = (list(getattr(self, 'train_', [])) if self.warm else []) + ids
+        self.ymap_ = dict(getattr(self, 'ymap_', {}) if self.warm else {})
+        self.ymap_.update(zip(ids, y.tolist()))
         self.mean_ = float(y.mean()) if len(y) else 0.0
         Z = np.column_stack([np.ones(len(y)), X[:, 1:2] if self.flavor in (1, 4) else X[:, 1:]])
         self.beta_ = np.linalg.lstsq(Z, y, rcond=None)[0] if len(y) else np.zeros(Z.shape[1])
@@ -77,7 +86,7 @@ class Cand(BaseEstimator):
             from sklearn import clone
             self.inner_ = clone(self.inner).fit(X, y)
         if LOGGING[0]:
-            LOG.append({'ev': 'fit', 'cand': self.cand, 'uid': self.uid_, 'ids': list(self.train_), 'oid': self.token_,
+            LOG.append({'ev': 'fit', 'cand': self.cand, 'uid': self.uid_, 'ids': ids, 'oid': self.token_,
                         'y': [float(v) for v in y], 'x1': [float(v) for v in X[:, 1]]})
         return self
 
@@ -154,7 +163,7 @@ def make_cands(case):
                      'step': lambda: StepwiseSL(family=fam, selection='forward', order_interaction=0),
                      'sk': lambda: (LogisticRegression(C=1.0, max_iter=300) if binary else LinearRegression())
                      }[spec['inner']]()
-        out.append(cls(cand=c, flavor=spec.get('flavor', 0), binary=binary, inner=inner))
+        out.append(cls(cand=c, flavor=spec.get('flavor', 0), binary=binary, inner=inner, warm=bool(spec.get('warm'))))
     return out
 
 
@@ -479,6 +488,55 @@ def check_refit(chk, case):
            'refit': res['refit'][:4] if isinstance(res['refit'], list) else res['refit']})
 
 
+def _snapshot(cands):
+    return [sorted((k_, repr(v)[:60]) for k_, v in c.__dict__.items()) for c in cands]
+
+
+def check_shared(chk, case):
+    """two SuperLearner objects built from the SAME candidate objects: fitting B must not change what A predicts,
+    each must predict like an object built from its own fresh candidates, and the caller's candidates stay as
+    they were handed in (before / after snapshots)"""
+    from zepid.superlearner import SuperLearner
+    X1, y1, Xn1 = sl_data(case)
+    X2, y2, Xn2 = sl_data(dict(case, data_seed=case['data_seed'] + 7))
+    Xq = np.vstack([Xn1, X1[:4]])
+    labels = ['c%d' % i for i in range(len(case['cands']))]
+    kw = dict(folds=case['k'], loss_function=case['loss'], discrete=case['discrete'])
+    chk.case(case, ('SLshared', case['data_seed']))
+    chk.count('sl_shared_candidates')
+    res = {}
+    LOGGING[0] = False
+    try:
+        with warnings.catch_warnings():
+            warnings.simplefilter('ignore')
+            try:
+                shared = make_cands(case)
+                before = _snapshot(shared)
+                A = SuperLearner(shared, labels, **kw).fit(X1, y1)
+                res['A_before'] = [float(v) for v in A.predict(Xq)]
+                B = SuperLearner(shared, labels, **kw).fit(X2, y2)
+                res['A_after'] = [float(v) for v in A.predict(Xq)]
+                res['B'] = [float(v) for v in B.predict(Xq)]
+                res['untouched'] = _snapshot(shared) == before
+                res['A_fresh'] = [float(v) for v in SuperLearner(make_cands(case), labels, **kw).fit(X1, y1).predict(Xq)]
+                res['B_fresh'] = [float(v) for v in SuperLearner(make_cands(case), labels, **kw).fit(X2, y2).predict(Xq)]
+            except Exception as e:
+                res['err'] = '%s: %s' % (type(e).__name__, str(e)[:100])
+    finally:
+        LOGGING[0] = True
+    ctx = {'case': case, 'res': {k_: (v[:4] if isinstance(v, list) else v) for k_, v in res.items()}}
+    if 'err' in res:
+        chk.d(False, 'SuperLearner objects sharing candidate objects: fit / predict raised', ctx)
+        return
+    if any(math.isnan(v) for v in res['A_fresh'] + res['B_fresh']):
+        return      # the unguarded all-below-threshold case (judged elsewhere)
+    chk.d(json.dumps(res['A_before']) == json.dumps(res['A_after']),
+          'fitting another SuperLearner built from the same candidate objects does not change a fitted one', ctx)
+    chk.d(json.dumps(res['A_after']) == json.dumps(res['A_fresh']) and json.dumps(res['B']) == json.dumps(res['B_fresh']),
+          'SuperLearner objects sharing candidate objects predict like objects with their own candidates', ctx)
+    chk.k(res['untouched'], 'the caller\'s candidate objects are left as handed in (clones are fitted)', ctx)
+
+
 def make_sl_case(rng, loss, discrete, m, k, real=False, n=None):
     n = int(n if n is not None else rng.integers(max(10, k), 201))
     cands = []
@@ -486,7 +544,8 @@ def make_sl_case(rng, loss, discrete, m, k, real=False, n=None):
         if real:
             cands.append({'inner': str(rng.choice(['mean', 'glm', 'step', 'sk'])), 'proba': bool(rng.uniform() < 0.5)})
         else:
-            cands.append({'flavor': int(rng.integers(0, 5)), 'proba': bool(loss == 'nloglik' and rng.uniform() < 0.6)})
+            cands.append({'flavor': int(rng.integers(0, 5)), 'proba': bool(loss == 'nloglik' and rng.uniform() < 0.6),
+                          'warm': bool(rng.uniform() < 0.4)})
     return {'kind': 'sl', 'loss': loss, 'discrete': bool(discrete), 'k': int(k), 'n': n,
             'n_new': int(rng.integers(3, 12)), 'cands': cands, 'data_seed': int(rng.integers(0, 2 ** 31))}
 
@@ -584,13 +643,31 @@ def run_stepwise(case):
 
 
 def ref_aic(case, y, Xu, cols):
+    """reference GLM fit made by the harness -> (aic, trustworthy).  The reference is trustworthy only when the
+    fit converged to a genuine optimum: statsmodels reports convergence, emits no warning (perfect separation,
+    overflow, rank deficiency), the AIC is finite and no fitted mean sits on the boundary.  Under (quasi-)separation
+    IRLS stops at an arbitrary point and two fits of the same design need not report the same AIC: such a
+    reference fails its own assumption and is a discard (gate H), never a disagreement."""
     import statsmodels.api as sm
     if injected(case, cols):
-        return float('nan')
-    with warnings.catch_warnings():
-        warnings.simplefilter('ignore')
-        ex = np.hstack([np.ones((len(y), 1)), Xu[:, list(cols)]])
-        return float(sm.GLM(y, ex, family=family_of(case)).fit().aic)
+        return float('nan'), True
+    try:
+        with warnings.catch_warnings(record=True) as w:
+            warnings.simplefilter('always')
+            ex = np.hstack([np.ones((len(y), 1)), Xu[:, list(cols)]])
+            res = sm.GLM(y, ex, family=family_of(case)).fit()
+            aic = float(res.aic)
+            mu = np.asarray(res.fittedvalues, dtype=float)
+        ok = bool(res.converged) and not w and math.isfinite(aic) and bool(np.all(np.isfinite(mu)))
+        if ok and case['family'] == 'binomial':
+            ok = bool(mu.min() > 1e-6 and mu.max() < 1 - 1e-6)
+        if ok and case['family'] == 'poisson':
+            ok = bool(mu.min() > 1e-8)
+        if ok and np.linalg.matrix_rank(ex) < ex.shape[1]:
+            ok = False
+        return aic, ok
+    except Exception:
+        return float('nan'), False
 
 
 def enc_cols(c):
@@ -610,19 +687,30 @@ def check_stepwise(chk, drv, case):
     if case['nan_rate']:
         chk.count('sw_nan_injected')
     start = list(range(p)) if case['dir'] == 'backward' else []
-    a0 = ref_aic(case, y, Xu, start)
-    chk.h_checked += 1
     if any(-1 in c for c, _ in log):
         chk.k(False, 'a GLM design column could not be matched to a column of the expanded design',
               {'case': case})
         return
+    if not log or log[0][0] != start:
+        chk.k(False, 'first GLM fit is the starting model', {'case': case, 'log0': log[:1]})
+        return
+    # the AIC table the proxy logged is what the implementation saw and what the model consumes; it also drives D.
+    # Reference fits by the harness are used only where the table has no entry, and only when well conditioned.
+    table = {}
+    for c, a in log:
+        table.setdefault(tuple(c), a)
+    a0 = log[0][1]
     if math.isinf(a0) or any(math.isinf(a) and a < 0 for _, a in log):
         chk.discard('non-finite AIC (outside the model)')
         return
-    # H: statsmodels reports the same AIC on refit (reference invocation) for the starting model
-    if log and not (close(log[0][1], a0, rtol=1e-9) and log[0][0] == start):
-        chk.k(False, 'first GLM fit is the starting model with the reference AIC', {'case': case, 'log0': log[0],
-                                                                                     'ref': a0})
+    # H: statsmodels reports the same AIC on refit (reference invocation) -- judged only for a trustworthy reference
+    r0, ok0 = ref_aic(case, y, Xu, start)
+    chk.h_checked += 1
+    if not ok0:
+        chk.discard('reference GLM of the starting model not at a genuine optimum (separation / non-convergence)')
+    elif not close(a0, r0, rtol=1e-9):
+        chk.k(False, 'starting model: logged AIC = reference AIC (well-conditioned reference)',
+              {'case': case, 'logged': a0, 'ref': r0})
         return
     # ---- K: the model, driven by the logged AIC table, reproduces visited sequence and selected columns
     if drv is not None:
@@ -637,15 +725,27 @@ def check_stepwise(chk, drv, case):
         chk.k(ok, 'stepwise: model reproduces visited sequence, cols_optim and AIC',
               {'case': case, 'model': rep, 'impl': {k_: out.get(k_) for k_ in ('cols', 'aic', 'err')},
                'log': [(enc_cols(c), a) for c, a in log][:40]} if not ok else None)
-    # ---- D: the property on the implementation's result, against reference GLM fits
+    # ---- D: the property on the implementation's result
     if out['err'] is not None:
         chk.d(math.isnan(a0), 'StepwiseSL.fit raises only when the starting model has no AIC',
               {'case': case, 'err': out['err'], 'start_aic': a0})
         return
-    got = ref_aic(case, y, Xu, out['cols'])
+
+    def aic_of(cols):
+        """AIC the implementation saw for this design if it fitted it, else a trustworthy reference, else None"""
+        if tuple(cols) in table:
+            return table[tuple(cols)]
+        r, ok_ = ref_aic(case, y, Xu, cols)
+        chk.h_checked += 1
+        return r if ok_ else None
+
     tol = 1e-9 * max(1.0, abs(a0))
-    chk.d(close(got, out['aic'], rtol=1e-9), 'model_optim is the GLM on cols_optim', {'case': case, 'ref': got,
-                                                                                       'impl': out['aic']})
+    got = aic_of(out['cols'])
+    if got is None:
+        chk.discard('reference GLM of the returned model not at a genuine optimum')
+    else:
+        chk.d(close(got, out['aic'], rtol=1e-9), 'model_optim is the GLM on cols_optim',
+              {'case': case, 'cols': out['cols'], 'expected': got, 'impl': out['aic']})
     chk.d(out['aic'] <= a0 + tol, 'returned AIC is not worse than the starting AIC',
           {'case': case, 'start': a0, 'returned': out['aic'], 'cols': out['cols']})
     if case['dir'] == 'backward':
@@ -653,8 +753,10 @@ def check_stepwise(chk, drv, case):
     else:
         alts = [out['cols'] + [v] for v in range(p) if v not in out['cols']]
     for alt in alts:
-        a = ref_aic(case, y, Xu, alt)
-        chk.h_checked += 1
+        a = aic_of(alt)
+        if a is None:
+            chk.discard('reference GLM of an admissible step not at a genuine optimum')
+            continue
         chk.d(not (a < out['aic'] - tol), 'no admissible single step from the returned model lowers AIC',
               {'case': case, 'cols': out['cols'], 'alt': alt, 'alt_aic': a, 'returned': out['aic']})
 
@@ -721,13 +823,13 @@ def make_sw_case(rng, d, fam, order, q, nan_rate):
 
 # --------------------------------------------------------------------------------------------- driver
 def guarded(chk, fn, *args):
-    """an exception escaping a check (e.g. a candidate that cannot predict in the reference run) is a broken
-    correspondence for that case, not a tool failure"""
+    """an exception escaping a check (zEpid raising on a valid input, or anything the harness cannot digest) is a
+    D failure with a replay for that case, never a tool failure (exit 2)"""
     try:
         fn(*args)
     except Exception as e:
         import traceback
-        chk.k(False, 'check raised %s: %s' % (type(e).__name__, str(e)[:120]),
+        chk.d(False, 'case could not be completed: %s: %s' % (type(e).__name__, str(e)[:120]),
               {'case': args[-1], 'traceback': traceback.format_exc()[-1500:]})
 
 
@@ -740,6 +842,8 @@ def run(chk, drv, rng, tier):
 
     def check_refit_(c):
         guarded(chk, check_refit, chk, c)
+        guarded(chk, check_shared, chk, dict(c, discrete=False))
+        guarded(chk, check_shared, chk, dict(c, discrete=True, data_seed=c['data_seed'] + 11))
     _run(chk, drv, rng, tier, check_sl_, check_stepwise_, check_refit_)
     for i in range(6 if tier == 'quick' else 60):
         guarded(chk, check_estimators, chk, {'kind': 'est', 'family': ('gaussian', 'binomial')[i % 2],
@@ -795,6 +899,8 @@ def replay(rec):
             check_stepwise(chk, drv, case)
         elif case['kind'] == 'est':
             check_estimators(chk, case)
+        elif 'sharing candidate' in (f.get('what') or '') or 'built from the same candidate' in (f.get('what') or ''):
+            check_shared(chk, case)
         elif 'second fit' in (f.get('what') or ''):
             check_refit(chk, case)
         else:
